@@ -49,10 +49,19 @@ type vfNet struct {
 	// onDeliver is called just before bytes are put into an inbox (may observe).
 	onDeliver func(n *vfNet, to *vfEndpoint, data []byte, from net.Addr)
 	dropFull  atomic.Int64
+	// storm guard: a livelock in virtual time (endpoints answering each other without any time
+	// passing) must become an observable event, not a hang. After stormCap emissions the net
+	// goes dark and Storm() reports it.
+	emitted  atomic.Int64
+	stormCap int64
+	stormed  atomic.Bool
 }
 
+// Storm reports whether the emission cap was hit.
+func (n *vfNet) Storm() bool { return n.stormed.Load() }
+
 func vfNewNet() *vfNet {
-	return &vfNet{eps: map[string]*vfEndpoint{}, t0: time.Now(), emitIdx: map[string]int{}}
+	return &vfNet{eps: map[string]*vfEndpoint{}, t0: time.Now(), emitIdx: map[string]int{}, stormCap: vfStormCap()}
 }
 
 // SetOnSend replaces the adversary (nil = deliver everything immediately).
@@ -139,6 +148,11 @@ func (n *vfNet) emit(ep *vfEndpoint, data []byte, dst net.Addr) {
 		idx := n.emitIdx[ep.name]
 		n.mu.Unlock()
 		fmt.Printf("  wire %9v %s#%d -> %s %4dB %s\n", n.Now(), ep.name, idx, dst, len(data), vfDescribe(data, 0))
+	}
+	if n.stormCap > 0 && n.emitted.Add(1) > n.stormCap {
+		n.stormed.Store(true)
+
+		return
 	}
 	w := &vfWire{
 		Ticket: n.ticket.Add(1), VTime: n.Now(), From: ep.name, Dst: dst.String(),
@@ -521,4 +535,15 @@ func vfDescribe(b []byte, cidLen int) string {
 	}
 
 	return s
+}
+
+func vfStormCap() int64 {
+	if s := os.Getenv("VERIF_STORM_CAP"); s != "" {
+		var v int64
+		if _, err := fmt.Sscanf(s, "%d", &v); err == nil && v > 0 {
+			return v
+		}
+	}
+
+	return 200000
 }
